@@ -14,6 +14,10 @@ type item struct {
 	list bool
 	str  []byte
 	kids []*item
+	// raw, when set, is the verbatim encoding of this element (used for
+	// elements the rig does not look into: lists of typed inputs/outputs, the
+	// ring-confidential part of a UTXO transaction)
+	raw []byte
 }
 
 func bstr(b []byte) *item     { return &item{str: append([]byte{}, b...)} }
@@ -27,6 +31,9 @@ func (it *item) clone() *item {
 		return nil
 	}
 	c := &item{list: it.list, str: append([]byte{}, it.str...)}
+	if it.raw != nil {
+		c.raw = append([]byte{}, it.raw...)
+	}
 	for _, k := range it.kids {
 		c.kids = append(c.kids, k.clone())
 	}
@@ -57,6 +64,9 @@ func rlpHeader(base byte, n int) []byte {
 }
 
 func (it *item) enc() []byte {
+	if it.raw != nil {
+		return append([]byte{}, it.raw...)
+	}
 	if !it.list {
 		if len(it.str) == 1 && it.str[0] < 0x80 {
 			return []byte{it.str[0]}
@@ -146,4 +156,50 @@ func rlpLong(b []byte, ll int) (n, hl int, err error) {
 		return 0, 0, errRLP
 	}
 	return n, 1 + ll, nil
+}
+
+// rlpExtent returns header length and payload length of the element at the
+// start of b, from the header alone.
+func rlpExtent(b []byte) (hl, n int, isList bool, err error) {
+	if len(b) == 0 {
+		return 0, 0, false, errRLP
+	}
+	t := b[0]
+	switch {
+	case t < 0x80:
+		return 0, 1, false, nil
+	case t < 0xb8:
+		hl, n = 1, int(t-0x80)
+	case t < 0xc0:
+		n, hl, err = rlpLong(b, int(t-0xb7))
+	case t < 0xf8:
+		hl, n, isList = 1, int(t-0xc0), true
+	default:
+		n, hl, err = rlpLong(b, int(t-0xf7))
+		isList = true
+	}
+	if err != nil || len(b) < hl+n {
+		return 0, 0, false, errRLP
+	}
+	return hl, n, isList, nil
+}
+
+// rlpShallow splits a list into its top-level elements without looking into
+// them; every element keeps its verbatim bytes.
+func rlpShallow(b []byte) (*item, error) {
+	hl, n, isList, err := rlpExtent(b)
+	if err != nil || !isList || hl+n != len(b) {
+		return nil, errRLP
+	}
+	out := &item{list: true}
+	body := b[hl : hl+n]
+	for len(body) > 0 {
+		h, m, l, err := rlpExtent(body)
+		if err != nil {
+			return nil, err
+		}
+		out.kids = append(out.kids, &item{list: l, raw: append([]byte{}, body[:h+m]...)})
+		body = body[h+m:]
+	}
+	return out, nil
 }
